@@ -871,7 +871,9 @@ fn gen_mixed(rng: &mut Rng, tech: &str, arch: &str, os: &str) -> Option<String> 
                     let gw = garbage(rng, j);
                     put(&mut words, j, gw);
                 }
-                put(&mut words, s_new - 1, Word::Val(ret));
+                // ARM64: pointer-authentication bits above bit 46 of the saved return address are stripped
+                let pac = if arm_like && arch != "arm" && rng.chance(1, 3) { (1 + rng.below(0x1ffff)) << 47 } else { 0 };
+                put(&mut words, s_new - 1, Word::Val(ret | pac));
                 regs_out = known.clone();
                 let mut fpn = match fp {
                     _ if arm_like && prev_tech == "fp" => Fp::Invalid,
